@@ -154,11 +154,12 @@ func H_C18_Sizes() {
 	Cover("sizes")
 }
 
-// Concrete twin: block size L, 3L+1 requests, a distinct value written through
-// every pointer, all read back afterwards.
+// Concrete twin: block size L, n requests (the driver passes enough to cross the block
+// boundary many times), a distinct value written through every pointer, all read back
+// afterwards.
 func H_C18_Twin() {
 	L := ParamInt("L")
-	n := 3*L + 1
+	n := ParamInt("n")
 	tp := token.NewPool(L)
 	pp := position.NewPool(L)
 	ts := make([]*token.Token, n)
